@@ -26,7 +26,7 @@ import torch
 
 from torchtree.core.parameter import Parameter
 from torchtree.core.parameter_encoder import ParameterEncoder
-from torchtree.core.utils import TensorDecoder, TensorEncoder, update_parameters
+from torchtree.core.utils import TensorDecoder, update_parameters
 from torchtree.distributions.gmrf import GMRF
 from torchtree.inference.hmc.adaptation import (
     AdaptiveStepSize,
@@ -392,7 +392,7 @@ def _base_items(op, cls):
             (cls, '_reject', op, '_reject'), (cls, '_accept_window', op, '_accept_window')]
 
 
-def view(obj, owned_mass=True):
+def view(obj):
     """[(responsible class name, relative path, owner object, attribute)] - the run state of obj."""
     cls = type(obj).__name__
     if isinstance(obj, HMCOperator):
@@ -798,15 +798,15 @@ def case_mcmc(args, real=False, skip=(), first=True):
 
 
 def case_optimizer(algo, args, real=False, skip=(), first=True):
-    epoch, sched, warm, conv, lnum, last_epoch, step_count, enum = args
+    epoch, sched, warm, conv, lr, last_epoch, step_count = args
     a, b = mk_optimizer(algo, sched, warm, conv), mk_optimizer(algo, sched, 0, conv)
     a._epoch = epoch
-    a.optimizer.param_groups[0]['lr'] = lnum * 0.125
+    a.optimizer.param_groups[0]['lr'] = lr
     if a.scheduler is not None:
         a.scheduler.scheduler.last_epoch = last_epoch
         a.scheduler.scheduler._step_count = step_count
     if a.convergence is not None:
-        a.convergence.elbo = enum * 0.125
+        a.convergence.elbo = lr + 1.0
         a.convergence.elbo_diff.append(0.125)
     return roundtrip(a, b, real, skip, first, extra_items=_optimizer_items)
 
